@@ -3,6 +3,7 @@
    Proofs/RunnerP.v (a task starts only after its setup-tasks finished: that is C01 on the setup edge). *)
 From DoitV Require Import Base Dispatch Runner Parallel DispatchP DispatchInv RunnerP RunnerTr ParallelP ParallelTdP.
 From DoitV Require Import LazyP LazyParP ParallelTdProcP.
+From DoitV Require Import Teardown TeardownP.
 Open Scope N_scope.
 
 (* serial runner: however the loop ended (all done, stopped by a failure, cycle error, interrupt),
@@ -235,3 +236,67 @@ Theorem C11_teardown_process_reports :
   exists rest, fwd (fst res) = tdm (proj (fst res)) ++ rest /\ (~ In (snd res) [3; 4; 98; 99] -> rest = []).
 Proof. exact proc_teardown_reports. Qed.
 Print Assumptions C11_teardown_process_reports.
+
+(* ===== the teardown phase in detail: outcomes of the teardown actions (Model/Teardown.v, Proofs/TeardownP.v).
+   The run models above treat "report + teardown actions of task k" as one event; here every teardown action has an
+   outcome (ok / failed without raising / error) given as input.  tdl = the runner's teardown_list in registration
+   order with the outcomes of each task's teardown actions.  "A failing teardown does not prevent the others":
+   whatever the outcomes, every registered task gets its report, its own block of actions, and the blocks follow
+   each other in reverse registration order. ===== *)
+
+(* one teardown_task report per registered task, reverse registration order, for every assignment of outcomes *)
+Theorem C11_teardown_phase_reports :
+  forall tdl, td_reports (teardown tdl) = rev (map fst tdl).
+Proof. exact teardown_reports. Qed.
+Print Assumptions C11_teardown_phase_reports.
+
+(* the phase is the concatenation of the tasks' own blocks, last registered first: no block is cut short, skipped or
+   repeated because of what happened in another one *)
+Theorem C11_teardown_phase_blocks :
+  forall l1 x l2, teardown (l1 ++ x :: l2) = teardown l2 ++ teardown_one x ++ teardown l1.
+Proof. exact teardown_blocks. Qed.
+Print Assumptions C11_teardown_phase_blocks.
+
+(* the teardown actions of task k that run are numbers 0 .. td_ran acts - 1 (all of them, or up to and including
+   k's OWN first failing one), once each, in order -- independent of the outcomes of every other task's teardown *)
+Theorem C11_teardown_phase_actions :
+  forall k acts tdl, NoDup (map fst tdl) -> In (k, acts) tdl ->
+    td_acts_of k (teardown tdl) = seq 0 (td_ran acts).
+Proof. exact teardown_acts. Qed.
+Print Assumptions C11_teardown_phase_actions.
+
+Theorem C11_teardown_phase_first_action_once :
+  forall k a acts tdl, NoDup (map fst tdl) -> In (k, a :: acts) tdl ->
+    count_occ Nat.eq_dec (td_acts_of k (teardown tdl)) 0%nat = 1%nat.
+Proof. exact teardown_first_action. Qed.
+Print Assumptions C11_teardown_phase_first_action_once.
+
+(* exactly the tasks with a failing teardown get one cleanup_error each, in the order of the reports *)
+Theorem C11_teardown_phase_cleanup_errors :
+  forall tdl, td_cleanups (teardown tdl) = map fst (filter (fun ka => negb (forallb td_is_ok (snd ka))) (rev tdl)).
+Proof. exact teardown_cleanups. Qed.
+Print Assumptions C11_teardown_phase_cleanup_errors.
+
+(* link to the run models: for EVERY assignment `outs` of outcomes to teardown actions, the ETeardown events of
+   Runner.finish (serial and thread flavour) and the PTdRun / MTeardown items of a worker process are the reports of
+   the detailed phase -- so C11_teardown_serial / _thread / _process_* hold whatever the teardown actions do *)
+Theorem C11_teardown_phase_refines_finish :
+  forall (outs : name -> list tdres) r,
+    finish r = emit r (EClose :: map ETeardown (td_reports (teardown (map (fun k => (k, outs k)) (r_td r))))).
+Proof. exact finish_refined. Qed.
+Print Assumptions C11_teardown_phase_refines_finish.
+
+Theorem C11_teardown_phase_refines_worker :
+  forall (outs : name -> list tdres) (w : nat) l,
+    map (fun k => PTdRun k w) (rev l) = map (fun k => PTdRun k w) (td_reports (teardown (map (fun k => (k, outs k)) l))) /\
+    map MTeardown (rev l) = map MTeardown (td_reports (teardown (map (fun k => (k, outs k)) l))).
+Proof. exact worker_teardown_refined. Qed.
+Print Assumptions C11_teardown_phase_refines_worker.
+
+(* non-vacuity: tasks 1, 2, 3 registered in this order; the teardown of 2 fails (returns False) in its second of
+   three actions, the first action of 1 raises: 3, 2 and 1 are all reported and run, 2 stops after its own failing
+   action, both failures are reported *)
+Example C11_teardown_phase_nonvacuous :
+  teardown [(1, [TdError; TdOk]); (2, [TdOk; TdFail; TdOk]); (3, [TdOk])]
+  = [TReport 3; TAct 3 0; TReport 2; TAct 2 0; TAct 2 1; TCleanup 2; TReport 1; TAct 1 0; TCleanup 1].
+Proof. vm_compute. reflexivity. Qed.
